@@ -165,6 +165,12 @@ def node_json(node, rng=None, indent=0):
         return json.dumps(text_of(node["s"]), ensure_ascii=False)
     if t == "raw":
         return node["v"]
+    if t == "rawsym":
+        return text_of(node["s"])
+    if t == "rawsym":
+        return text_of(node["s"])
+    if t == "rawsym":
+        return text_of(node["s"])
     if t == "seq":
         return "[" + ", ".join(node_json(x, rng, indent + 1) for x in node["e"]) + "]"
     if t == "map":
@@ -191,6 +197,12 @@ def node_json5(node, rng=None, indent=0):
         return _json5_str(text_of(node["s"]))
     if t == "raw":
         return node["v"]
+    if t == "rawsym":
+        return text_of(node["s"])
+    if t == "rawsym":
+        return text_of(node["s"])
+    if t == "rawsym":
+        return text_of(node["s"])
     if t == "seq":
         return "[" + ", ".join(node_json5(x, rng, indent + 1) for x in node["e"]) + ",]" if node["e"] else "[]"
     if t == "map":
@@ -212,6 +224,12 @@ def node_yaml(node, rng=None, indent=0):
         return json.dumps(text_of(node["s"]), ensure_ascii=False).replace("\u2028", "\\L").replace("\u00a0", "\\_")
     if t == "raw":
         return node["v"]
+    if t == "rawsym":
+        return text_of(node["s"])
+    if t == "rawsym":
+        return text_of(node["s"])
+    if t == "rawsym":
+        return text_of(node["s"])
     if t == "seq":
         return "[" + ", ".join(_yaml_flow(x) for x in node["e"]) + "]"
     if t == "map":
